@@ -35,7 +35,7 @@ int main(int argc, char** argv)
 	if (cmd == "battery") {
 		// decoding: parent links of EVERY child (elements and text), documents with comments / PIs / references / CDATA-free mixed content, and malformed ones
 		const char* docs[] = { "<a>t<b x='1'>u<c/>v</b>w<!-- c -->x<?pi y?>z</a>", "<r><i>1</i><i>2<j k=\"&amp;&lt;\">&#65;&#x42;</j></i>tail</r>", "<?xml version=\"1.0\"?><!DOCTYPE r><r a=\"b\"> <s/> text <s></s></r>",
-			"<a><b>only</b></a>", "<a>&apos;&quot;&gt;</a>", "</>", "<a></b>", "<a", "<a><b></a>", "<a x=>", "&#1114112;<a/>", "<a>&#xFFFFFFFF;</a>", "<a/><b/>", "" };
+			"<a><b>only</b></a>", "<a>&apos;&quot;&gt;</a>", "</>", "<a></b>", "<a", "<a><b></a>", "<a x=>", "&#1114112;<a/>", "<a>&#xFFFFFFFF;</a>", "<a/><b/>", "", "<?>", "<a><?></a>", "<root><item>a-text-longer-than-sixteen-chars</item><?><b/></root>", "<r a=\"an-attribute-value-longer-than-16\"><??><?x?></r>", "<r>text-that-is-long-enough-for-the-heap<!></r>" };
 		for (unsigned d = 0; d < sizeof(docs) / sizeof(docs[0]); d++) { Xml x = Xml::decode(docs[d]); if (x && !all_parents_ok(x)) { printf("REPRODUCED after decoding document %u a child's parent() is not the element that contains it\n", d); return 1; } }
 		// encode -> decode on generated trees: shapes x text kinds (empty, plain, markup characters, non-ASCII), compact form
 		const char* texts[] = { "", "plain", "a<b>&\"'c", "\xC3\xA9\xE2\x82\xAC", "  ", "x" };
